@@ -6,7 +6,7 @@ For each change: clean worktree -> demo passes; apply patch -> suite still 331 p
 import json, os, shutil, subprocess, sys
 from pathlib import Path
 
-VER = Path("/tmp/wt/verify")
+VER = Path(os.environ.get("WT_VERIFY", "/tmp/wt/verify"))
 SEEDED = Path("/verif/seeded")
 
 def sh(cmd, cwd=None, env=None, timeout=900):
@@ -21,7 +21,7 @@ def main():
     env = dict(os.environ, PYTHONPATH=str(VER / "src"))
     head = sh("git rev-parse HEAD", cwd=VER)[1].strip()
     for prop in sys.argv[1:]:
-        base = Path(f"/tmp/wt/{prop}/out")
+        base = Path(os.environ.get("WT_ROOT", "/tmp/wt")) / prop / "out"
         for d in sorted(base.glob("*")):
             if not (d / "patch.diff").exists():
                 continue
